@@ -72,7 +72,9 @@ TM_DT = 0.1
 # containers / scalings of the cluster (master m and its lagged copies): m, m as int64, m*2^-30 (residuals ~1e-18), m+2^20
 # (samples differ by ~1e-6 of their size)
 TM_VARIANTS = (('f64', 1, 0, float), ('i64', 1, 0, np.int64), ('f64 (m*2^-30)', Fraction(1, 2 ** 30), 0, float),
-               ('f64 (m+2^20)', 1, 2 ** 20, float))
+               ('f64 (m+2^20)', 1, 2 ** 20, float),
+               # a level 1e8 .. 1e9 times the variation (positions, absolute pressures): sums of squares of the values lose the residuals
+               ('f64 (m*2^-7+2^23)', Fraction(1, 128), 2 ** 23, float))
 # long clusters ("for every cluster"): lcg_perm(n, 0) for these lengths, steps TM_LONG_STEPS, every lag, the cluster shapes
 # (number of signals, master index) of TM_LONG_SHAPES
 TM_LONG_LENGTHS = (4999, 5001, 8192)
@@ -233,7 +235,7 @@ def build(tier, seed):
                              'scan-offset-0', 'scan-offset-30', 'scan-offset-200', 'scan-points-3', 'scan-points-7',
                              'scan-series-last-differs-from-first', 'scan-defaults-after-explicit',
                              'tm-lag-positive', 'tm-lag-negative', 'tm-lag-zero', 'tm-nsig-2', 'tm-nsig-3', 'tm-nsig-4',
-                             'tm-master-0', 'tm-master-nonzero', 'tm-max-lag',
+                             'tm-master-0', 'tm-master-nonzero', 'tm-master-reassigned', 'tm-max-lag',
                              'ss-nsig-2', 'ss-nsig-3', 'ss-nsig-4', 'ss-master-0', 'ss-master-1', 'ss-master-last',
                              'ss-shift-nonzero', 'ss-already-aligned', 'ss-window-decided', 'ss-window-rounding-tie',
                              'ss-window-off-grid', 'ss-window-bound-fraction-ge-half', 'ss-window-bound-fraction-lt-half',
@@ -521,6 +523,15 @@ def _rot_body(r, ns, we, tag, mult, off, typ):
                 continue
             r.expect_close('rotated.values', sub, vals, want, rtol=1e-9, atol=am,
                            what='value i vs %s of the reference combination at angle i' % meas)
+            # the caller owns the two arrays it was given: it turns the angles into something else in place and rescales the values
+            # (later scans with the same offset and number of points must not see any of it)
+            for res_ in (out[0], out[1]):
+                if isinstance(res_, np.ndarray) and res_.flags.writeable and res_.size:
+                    try:
+                        res_ += 33.0
+                        res_ %= 7.0
+                    except Exception:
+                        pass
     # the components themselves are left alone by all of the above (also by overwriting the returned combinations)
     for nm, sg, arr, xs in (('ns', ns_sig, ns_arr, nsx), ('we', we_sig, we_arr, wex)):
         try:
@@ -644,13 +655,26 @@ def _tm_config(r, m, mname, n, steps, lag, nsig, mi, others, lags, series, vtag,
     mx = [float(v) for v in vals[mi]]
     at = 1e-12 * (fm if off == 0 else max(abs(v) for v in mx))
 
-    def go():
-        cl = eqsig.Cluster([v.copy() for v in vals], TM_DT, master_index=mi)
+    sub_plain = sub
+    for reassigned in ((False, True) if plain and n <= 64 else (False,)):
+      if reassigned:
+        # the master chosen AFTER construction through the public attribute (the cluster was built with another master)
+        sub = dict(sub_plain, master_assigned_after_construction=True)
+        r.cls('tm-master-reassigned')
+
+      def go():
+        cl = eqsig.Cluster([v.copy() for v in vals], TM_DT, master_index=((mi + 1) % nsig if reassigned else mi))
+        if reassigned:
+            cl.master_index = mi
         cl.time_match(steps=steps)
         return cl
-    ok, cl = r.call('time_match.call', sub, go)
-    if not ok:
-        return
+      ok, cl = r.call('time_match.call', sub, go)
+      if not ok:
+        continue
+      _tm_post(r, cl, sub, n, mi, others, lags, mx, at, vals, mname)
+
+
+def _tm_post(r, cl, sub, n, mi, others, lags, mx, at, vals, mname):
     for o in others:
         s2 = dict(sub, signal=o, signal_lag=lags[o])
         r.transitions += 1
@@ -861,12 +885,17 @@ def run_ss(c):
                 # ---- the same cluster aligned AGAIN after its members were edited through their own public methods (plain, acceleration
                 #      and mixed clusters): whatever a signal keeps about a section must not survive a change of its values
                 if ongrid and (start, end) == windows[0][0]:
-                    for stname, st in (('custom', 'custom'), ('acc', 'acc'), ('mixed', ['acc' if j % 2 == 0 else 'custom' for j in range(m)])):
+                    for stname, st in (('custom', 'custom'), ('acc', 'acc'), ('mixed', ['acc' if j % 2 == 0 else 'custom' for j in range(m)]),
+                                       ('custom, master assigned after construction', 'custom')):
                         sub2 = dict(sub, stypes=stname, sequence='same_start, add_constant to every member, same_start')
                         cc('ss-realigned-after-edit')
                         r.evals += 1
                         try:
-                            cl = eqsig.Cluster([arrs[tuple(w)].copy() for w in ws], dt, master_index=mi, stypes=st)
+                            if stname.startswith('custom, master'):
+                                cl = eqsig.Cluster([arrs[tuple(w)].copy() for w in ws], dt, master_index=(mi + 1) % m, stypes=st)
+                                cl.master_index = mi
+                            else:
+                                cl = eqsig.Cluster([arrs[tuple(w)].copy() for w in ws], dt, master_index=mi, stypes=st)
                             cl.same_start(**kw)
                             for j in range(m):
                                 cl.signal_by_index(j).add_constant(0.5 * (j + 1) * (-1) ** j)
